@@ -169,6 +169,39 @@ def run(F, tier, res):
             res.violate('WORDS', 'field=%s;ambiguous' % f, 'the word %r printed for %s also sets %s when parsed' % (w, f, sorted(extra)), where=F.bodies[P]['mir']['span']['at'])
             continue
         ok += 1
+    # RESERVED: several style options are first passed through the extractor of special decoration attributes, which takes some words
+    # out of the style string whatever kind of string it is (box, overline, underline, ...). A word the printer uses for a TEXT
+    # attribute must not be one of those: supplied again, it would be consumed as a decoration and the text attribute lost.
+    extractors = [q for q, b in F.fn_bodies.items() if 'DecorationAttributes' in b['mir']['locals'][0] and 'String' in b['mir']['locals'][0]
+                  and any(b['mir']['locals'][i] == 'bool' for i in range(1, b['mir']['arg_count'] + 1))]
+    nrs = okrs = 0
+    reserved = {}
+    for q in extractors:
+        bpar = [i for i in range(1, F.bodies[q]['mir']['arg_count'] + 1) if F.bodies[q]['mir']['locals'][i] == 'bool']
+        for i, c in F.calls(q):
+            if not callee_of(c).endswith(('::eq', '::ne')):
+                continue
+            lits = [v[1] for a in c['args'] for v in F.operand_literals(q, a) if v[0] == 'str']
+            if len(lits) != 1:
+                continue
+            # conditional on the "this is a decoration style string" flag?
+            cond = Ru.guarded_by(F, q, i, lambda rs: any(r[0] == 'param' and r[1] in bpar and not r[2] for r in rs)) or \
+                Ru.guarded_by(F, q, i, lambda rs: any(r[0] == 'param' and r[1] in bpar and not r[2] for r in rs), want_true=False)
+            if not cond:
+                reserved[lits[0]] = q
+    if extractors:
+        for f in sorted(dt):
+            if f not in ATTR_FIELDS:
+                continue
+            nrs += 1
+            clash = [w for w in dt[f] if w in reserved]
+            if clash:
+                res.violate('RESERVED', 'field=%s;word=%s' % (f, clash[0]), 'the printer shows %s as %r, a word that the special-decoration extractor (%s) removes from every style '
+                            'string it sees: for commit / file / hunk-header styles the printed style, supplied again, loses the attribute and gains a decoration'
+                            % (f, clash[0], reserved[clash[0]].split('::')[-1]), where=F.bodies[D]['mir']['span']['at'])
+            else:
+                okrs += 1
+        res.rule('C12.RESERVED', nrs, 5, 'printed attribute words vs the words %s consumed unconditionally by the special-decoration extractor' % sorted(reserved), discharged=okrs)
     # ORDER: attribute words commute ("in any order"): inside the per-word loop every write to an attribute flag (the bools returned
     # next to the style, and the is_* fields of the ansi_term style) is the constant `true` - set-only, so no word can undo or
     # depend on another one whatever their order
